@@ -105,6 +105,17 @@ def numeric_series(rfmod, rs, k):
         ev.append(("zero_pulse", float(max(np.abs(bz).max(), np.abs(np.abs(az) - 1).max())), name))
         az0, bz0 = run_sim(rfmod, name, np.zeros(n1, dtype=np.complex128), np.zeros(n1), x)
         ev.append(("zero_pulse", float(max(np.abs(bz0).max(), np.abs(az0 - 1).max())), name + " (no gradient: identity)"))
+    # abrm_hp with its off-resonance phase per sample (scalar and per-position)
+    for dom in (0.37, rs.randn(5) * 0.5):
+        hp = lambda r_, g_: rfmod.sim.abrm_hp(r_, g_, x, dom)
+        a, b = hp(r12, np.concatenate([g1, g2]))
+        a1, b1 = hp(r1, g1)
+        a2, b2 = hp(r2, g2)
+        ca, cb = comp(a1, b1, a2, b2)
+        lab = "abrm_hp dom0dt %s" % ("scalar" if np.isscalar(dom) else "array")
+        ev += [("unitarity", unit(a, b), lab), ("composition", float(max(np.abs(ca - a).max(), np.abs(cb - b).max())), lab)]
+        az, bz = hp(np.zeros(n1, dtype=np.complex128), g1)
+        ev.append(("zero_pulse", float(max(np.abs(bz).max(), np.abs(np.abs(az) - 1).max())), lab))
     # simultaneous rotation: abrm (gradient 2 pi / n by construction), abrm_nd
     a, b = rfmod.sim.abrm(r12, x)
     a1, b1 = rfmod.sim.abrm(r1, x * n1 / (n1 + n2))
@@ -138,6 +149,19 @@ def numeric_series(rfmod, rs, k):
     ev += [("unitarity", unit(a, b), "abrm_ptx"), ("composition", float(max(np.abs(ca - a).max(), np.abs(cb - b).max())), "abrm_ptx")]
     az, bz = ptx(np.zeros((Nc, n1), dtype=np.complex128), Gp1)
     ev.append(("zero_pulse", float(max(np.abs(bz).max(), np.abs(np.abs(az) - 1).max())), "abrm_ptx"))
+    # the optional arguments: an off-resonance map comparable to the gradient term, and B1+ sensitivities
+    gam = 267.522 * 1e6 / 1000
+    fmap = rs.randn(4) * gam / (2 * np.pi) * float(rs.choice([0.5, 3.0]))
+    sens = rs.randn(Nc, 2, 2) + 1j * rs.randn(Nc, 2, 2)
+    for label, kw in (("fmap", dict(fmap=fmap)), ("sens", dict(sens=sens)), ("fmap+sens", dict(fmap=fmap, sens=sens))):
+        pt = lambda B, G: tuple(np.squeeze(v) for v in rfmod.sim.abrm_ptx(B, xp2, G, 1e-6, **{k_: np.array(v_) for k_, v_ in kw.items()})[:2])
+        a, b = pt(np.concatenate([B1, B2], 1), np.concatenate([Gp1, Gp2]))
+        a1, b1 = pt(B1, Gp1)
+        a2, b2 = pt(B2, Gp2)
+        ca, cb = comp(a2, b2, a1, b1)
+        ev += [("unitarity", unit(a, b), "abrm_ptx " + label), ("composition", float(max(np.abs(ca - a).max(), np.abs(cb - b).max())), "abrm_ptx " + label)]
+        az, bz = pt(np.zeros((Nc, n1), dtype=np.complex128), Gp1)
+        ev.append(("zero_pulse", float(max(np.abs(bz).max(), np.abs(np.abs(az) - 1).max())), "abrm_ptx " + label))
     return {"n1": n1, "n2": n2, "scale": scale}, ev
 
 
